@@ -80,11 +80,18 @@ def isInterim (fs : List Field) : Bool :=
   | [[49, _, _]] => true
   | _ => false
 
-/-- `content-length` as a number if present once and all digits -/
+/-- one `content-length` value as a number: non-empty, all digits -/
+def clValue (v : List Nat) : Option Nat :=
+  if !v.isEmpty && v.all (fun b => 48 ≤ b && b ≤ 57) then some (v.foldl (fun a b => a * 10 + (b - 48)) 0) else none
+
+/-- `content-length` as a number if present and all digits; a repeated field is valid only if every
+    occurrence says the same (RFC 9110 section 8.6) -/
 def contentLength (fs : List Field) : Option (Option Nat) :=
   match get fs "content-length" with
   | [] => none
-  | [v] => if !v.isEmpty && v.all (fun b => 48 ≤ b && b ≤ 57) then some (some (v.foldl (fun a b => a * 10 + (b - 48)) 0)) else some none
-  | _ => some none
+  | v :: rest =>
+    match clValue v with
+    | some n => if rest.all (fun o => clValue o == some n) then some (some n) else some none
+    | none => some none
 
 end H2V.Spec.Http
